@@ -61,6 +61,7 @@ var c20Sib = "add_key(from_sib, 1)\r\nadd_key(sib_ml, \"\"\"x\r\ny\"\"\")\r\nset
 
 const (
 	c20Other    = "add_key(from_other, 1)\n"
+	c20MainPPL  = "add_key(from_the_ppl_namesake, 1)\n" // same stem as the selected script, other extension: never a stand-in
 	c20Broken   = "x = ((( this script does not parse\n"
 	c20BadCheck = "add_key(k, 1)\nno_such_function(1)\n"
 )
@@ -71,7 +72,7 @@ const (
 // not load and are neither selected nor used, a non-script file and a
 // directory named like a script.
 func c20Layout(dir, mainSrc string) {
-	for n, s := range map[string]string{"main.p": mainSrc, "other.ppl": c20Other, "broken.p": c20Broken, "badcheck.ppl": c20BadCheck, "notes.txt": "this is not a script ((("} {
+	for n, s := range map[string]string{"main.p": mainSrc, "main.ppl": c20MainPPL, "other.ppl": c20Other, "broken.p": c20Broken, "badcheck.ppl": c20BadCheck, "notes.txt": "this is not a script ((("} {
 		_ = os.WriteFile(filepath.Join(dir, n), []byte(s), 0o644)
 	}
 	_ = os.Mkdir(filepath.Join(dir, "sub.p"), 0o755)
@@ -311,7 +312,7 @@ func c20Compare(exp, got *c20Point, format string, r c20Result) string {
 }
 
 func c20One(w *run.Worker, bin string, c c20Case, in c20Input) {
-	dir := filepath.Join(run.VerifDir, ".cache", "tmp", fmt.Sprintf("c20-%d-%d", os.Getpid(), w.Index()))
+	dir := filepath.Join(run.VerifDir, ".cache", "tmp", fmt.Sprintf("c20-[v2]*?-%d-%d", os.Getpid(), w.Index()))
 	_ = os.MkdirAll(dir, 0o755)
 	defer os.RemoveAll(dir)
 	c20Layout(dir, c.Script)
@@ -320,6 +321,7 @@ func c20One(w *run.Worker, bin string, c c20Case, in c20Input) {
 	if c.Mode == "workspace" {
 		scripts["sib.p"] = c20Sib
 		scripts["other.ppl"] = c20Other
+		scripts["main.ppl"] = c20MainPPL
 		scripts["broken.p"] = c20Broken
 		scripts["badcheck.ppl"] = c20BadCheck
 	}
@@ -445,7 +447,7 @@ func c20Replay(raw json.RawMessage) (bool, string) {
 		return false, err.Error()
 	}
 	bin := filepath.Join(run.VerifDir, ".cache", "bin", "platypus")
-	dir := filepath.Join(run.VerifDir, ".cache", "tmp", fmt.Sprintf("c20-replay-%d", os.Getpid()))
+	dir := filepath.Join(run.VerifDir, ".cache", "tmp", fmt.Sprintf("c20-[v2]*?-replay-%d", os.Getpid()))
 	_ = os.MkdirAll(dir, 0o755)
 	defer os.RemoveAll(dir)
 	c20Layout(dir, c.Script)
@@ -453,7 +455,7 @@ func c20Replay(raw json.RawMessage) (bool, string) {
 	in := c20Input{Type: c.InputType, Data: c.Input}
 	scripts := map[string]string{"main.p": c.Script}
 	if c.Mode == "workspace" {
-		scripts["sib.p"], scripts["other.ppl"], scripts["broken.p"], scripts["badcheck.ppl"] = c20Sib, c20Other, c20Broken, c20BadCheck
+		scripts["sib.p"], scripts["other.ppl"], scripts["broken.p"], scripts["badcheck.ppl"], scripts["main.ppl"] = c20Sib, c20Other, c20Broken, c20BadCheck, c20MainPPL
 	}
 	exp, loadErr, runErr := c20Expected(scripts, "main.p", in)
 	r, err := c20Invoke(bin, dir, c)
